@@ -502,7 +502,9 @@ def bounded_progress(run, rng, case_id: int) -> None:
         v = VMF()
         v.create_ent('info_target', targetname='x', origin='0 0 0')
         for fn in contents:
-            v.create_ent('func_instance', targetname='n', file=fn, origin='16 0 0', angles='0 90 0')
+            # (class names are case-insensitive: the nested instance may be spelled in any letter case)
+            v.create_ent(rng.choice(('func_instance', 'func_instance', 'Func_Instance', 'FUNC_INSTANCE')), targetname='n', file=fn,
+                         origin='16 0 0', angles='0 90 0')
         return v.export(inc_version=False)
     if shape == 'self':
         files['a.vmf'] = mk(['a.vmf'])
@@ -526,16 +528,24 @@ def bounded_progress(run, rng, case_id: int) -> None:
     calls = [0]
     real = instancing.collapse_one
 
+    budget = n_top * sum(fan ** k for k in range(0, limit + 1))
+
+    class OverBudget(BaseException):
+        pass
+
     def counting(*a, **kw):
         calls[0] += 1
+        if calls[0] > 3 * budget + 10:
+            raise OverBudget()  # far past the analytic bound: stop the run instead of waiting for the watchdog
         return real(*a, **kw)
-    budget = n_top * sum(fan ** k for k in range(0, limit + 1))
     instancing.collapse_one = counting
     outcome = 'returned'
     try:
         instancing.collapse_all(top, fsys, recur_limit=limit)
     except RecursionError:
         outcome = 'RecursionError'
+    except OverBudget:
+        outcome = 'stopped by the monitor'
     except Exception as exc:
         run.violation(f'collapse_all({shape}, recur_limit={limit}) raised {type(exc).__name__}: {exc}', witness=traceback.format_exc()[-800:],
                       case={'id': case_id, 'bounded': True}, engine='bounded-progress', key='collapse-all-raises')
